@@ -387,17 +387,41 @@ def main():
 
     failing_inputs = []
     unexplained = []
-    for fam in fams:
-        for v in fam.violations:
-            e = attribute(v)
-            if e is not None:
-                continue
-            failing_inputs.append((fam.name, v))
-        for d in fam.disagreements:
-            e = attribute(d)
-            if e is not None:
-                continue
-            unexplained.append((fam.name, d))
+
+    def collect(families):
+        for fam in families:
+            for v in fam.violations:
+                e = attribute(v)
+                if e is not None:
+                    continue
+                failing_inputs.append((fam.name, v))
+            for d in fam.disagreements:
+                e = attribute(d)
+                if e is not None:
+                    continue
+                unexplained.append((fam.name, d))
+
+    collect(fams)
+    # a proof or a translation broke but this run's cases exhibit nothing: search further (other random streams) for a
+    # concrete failing input before reporting no-failing-input-found; never entered while everything checks
+    extra_rounds = 0
+    if proof_broken and not failing_inputs:
+        t_search = time.time()
+        for k in (1, 2, 3):
+            if time.time() - t_search > 240:
+                break
+            try:
+                more = mod.run(tier, seed + 1000 * k)
+            except Exception as exc:          # the search must not turn a report into a crash
+                print(f"# extended search round {k} failed: {exc}", file=sys.stderr)
+                break
+            extra_rounds += 1
+            for f in more:
+                f.name = f"{f.name}[extended search {k}]"
+            collect(more)
+            fams = fams + more
+            if failing_inputs:
+                break
 
     # known findings: replay each listed one against the current tree
     for e in known:
